@@ -14,6 +14,7 @@ func TestProp(t *testing.T) {
 	r.Assume(
 		"the fake TransportClient behaves like websocket.Client: writes after a disconnect are refused (counted, not judged), a pending read fails when the connection is closed",
 		"the fake ExecutorPool refuses exactly the payloads graphql.UnmarshalRequest refuses; executors honour or ignore cancellation as scripted",
+		"the before-start hook (30% of the sequence cases) lives in one shared real ExecutionEngine; only operations it refuses get a real ExecutorV2 (the engine consults the hook for that type only), everything it lets through runs a scripted fake executor",
 		"keep-alive, subscription-update and read-error intervals are one hour (never fire); the init timeout is one hour except in the init-timeout part",
 		"rendezvous on ReadBytesFromClient and on executor park states makes the history exact; watchdog expiry discards the case (inconclusive), it never alarms, except a Handle goroutine blocked in the same call twice (wedged)",
 	)
@@ -23,6 +24,7 @@ func TestProp(t *testing.T) {
 		"duplicate-id", "id-reused", "client-complete:live", "client-complete:executor-running",
 		"sub-before-init", "second-init", "unknown-type", "non-json", "wrong-shape:ignored", "init-rejected",
 		"gate-released-uninterruptible-executor", "tick:before-init", "tick:after-init", "accepted",
+		"hook-refused", "hook-refused:on-live-id", "id-reused-after-hook-refusal",
 	)
 	if r.FirstShard() {
 		if msg := acceptorSelfTest(); msg != "" {
